@@ -331,6 +331,16 @@ def run(out, tier):
 
 def replay(out, path):
     rp = json.load(open(path))["replay"]
+    if rp.get("stage") == "glob":
+        import c01_glob as cg
+        drv = vlib.build_driver("glob")
+        h = vlib.build_harness("glob", extra_overlay=cg.INJECT)
+        line = ("isglob\t" + cg.hx(rp["pattern"])) if rp["kind"] == "isglob" else "%s\t%s\t%s" % (rp["kind"], cg.hx(rp["pattern"]), cg.hx(rp["path"]))
+        print(json.dumps(rp, indent=1))
+        if rp["kind"] in ("isglob", "match"):
+            impl, mod = cg.both(h, drv, [line])
+            print("now: implementation %s, model %s" % (impl[0], mod[0]))
+        return
     print(json.dumps(rp.get("description"), indent=1))
     print("observed:", json.dumps(rp.get("observed"), indent=1)[:3000])
     print("re-run ./check C01 with the same VERIF_SEED to regenerate this history on the current tree")
